@@ -667,12 +667,20 @@ func (e *Engine) exec(st *State, in ssa.Instruction) ([]*State, []Path) {
 		if idx.Kind == KInt {
 			sel = fmt.Sprintf("[%d]", idx.K)
 		}
+		if states := e.forkTableIndex(st, x, base, idx); states != nil {
+			return states, nil
+		}
 		switch base.Kind {
 		case KAddr: // pointer to array
 			st.env[x] = AV{Kind: KAddr, Loc: locJoin(ensureSel(base.Loc), sel)}
 		case KSliceOf:
 			st.env[x] = AV{Kind: KAddr, Loc: locJoin(ensureSel(base.Loc), sel)}
 		case KSym:
+			if root, lo, _, ok := parseSliceName(base.Sym); ok && idx.Kind == KInt && idx.K >= 0 {
+				// element i of X[lo:hi] is element lo+i of X (same memory)
+				st.env[x] = AV{Kind: KAddr, Loc: "P:" + root + "|" + fmt.Sprintf("[%d]", lo+idx.K)}
+				break
+			}
 			st.env[x] = AV{Kind: KAddr, Loc: "P:" + base.Sym + "|" + sel}
 		default:
 			st.env[x] = AV{Kind: KAddr, Loc: "P:?" + base.name() + "|" + sel}
@@ -956,6 +964,14 @@ func (e *Engine) binop(st *State, x *ssa.BinOp) AV {
 			}
 			if lconst {
 				l, r, lr, rr, lk, rk, lconst, rconst = r, l, rr, lr, rk, lk, rconst, lconst
+			}
+			if !lconst && !rconst {
+				if a, ok := e.beCompose(st, l, r, t); ok {
+					return a
+				}
+				if a, ok := e.beCompose(st, r, l, t); ok {
+					return a
+				}
 			}
 			if rconst && rk >= 0 && l.Kind == KLin && !lr.empty() && lr.min() >= 0 {
 				// bits of the constant and of the range do not overlap: OR is +
@@ -2040,6 +2056,177 @@ func refineParent(st *State, term string, set iset) {
 		pre = append(pre, iv{plo, phi})
 	}
 	st.terms[x] = inter(cur, norm(pre))
+}
+
+// parseSliceName: "slice(X,lo,hi)" with constant (or empty) bounds.
+func parseSliceName(n string) (root string, lo, hi int64, ok bool) {
+	if !strings.HasPrefix(n, "slice(") || !strings.HasSuffix(n, ")") {
+		return "", 0, 0, false
+	}
+	body := n[len("slice(") : len(n)-1]
+	j := strings.LastIndexByte(body, ',')
+	if j < 0 {
+		return "", 0, 0, false
+	}
+	i := strings.LastIndexByte(body[:j], ',')
+	if i < 0 {
+		return "", 0, 0, false
+	}
+	root, los, his := body[:i], body[i+1:j], body[j+1:]
+	if strings.Count(root, "(") != strings.Count(root, ")") {
+		return "", 0, 0, false
+	}
+	hi = -1
+	if los != "" {
+		v, err := parseInt(los)
+		if err != nil || v < 0 {
+			return "", 0, 0, false
+		}
+		lo = v
+	}
+	if his != "" {
+		v, err := parseInt(his)
+		if err != nil || v < lo {
+			return "", 0, 0, false
+		}
+		hi = v
+	}
+	return root, lo, hi, true
+}
+
+// byteRun: the term denotes bytes [i,j) of X read big-endian: a byte element
+// "X[i]" (its range within 0..255) or "beN(slice(X,i,j))".
+func byteRun(st *State, term string) (root string, i, j int64, ok bool) {
+	if strings.HasPrefix(term, "be") {
+		k := strings.IndexByte(term, '(')
+		if k > 2 && strings.HasSuffix(term, ")") {
+			bits, err := parseInt(term[2:k])
+			if err == nil && bits%8 == 0 {
+				if r, lo, hi, ok := parseSliceName(term[k+1 : len(term)-1]); ok && hi-lo == bits/8 {
+					return r, lo, hi, true
+				}
+			}
+		}
+		return "", 0, 0, false
+	}
+	if !strings.HasSuffix(term, "]") {
+		return "", 0, 0, false
+	}
+	k := strings.LastIndexByte(term, '[')
+	if k <= 0 {
+		return "", 0, 0, false
+	}
+	idx, err := parseInt(term[k+1 : len(term)-1])
+	if err != nil || idx < 0 {
+		return "", 0, 0, false
+	}
+	set, has := st.terms[term]
+	if !has || set.empty() || set.min() < 0 || set.max() > 255 {
+		return "", 0, 0, false
+	}
+	return term[:k], idx, idx + 1, true
+}
+
+// beCompose: (run(X,i,j) << 8) | byte X[j]  =  run(X,i,j+1), for runs of up to
+// seven bytes — the hand-written form of encoding/binary's big-endian reads,
+// given the same name as their model so that both spell one value.
+func (e *Engine) beCompose(st *State, hiPart, loPart AV, t types.Type) (AV, bool) {
+	if hiPart.Kind != KLin || hiPart.K != 0 || loPart.Kind != KLin || loPart.K != 0 {
+		return AV{}, false
+	}
+	ht := hiPart.Term
+	if !strings.HasPrefix(ht, "(") || !strings.HasSuffix(ht, "<<8)") {
+		return AV{}, false
+	}
+	r1, i, j, ok1 := byteRun(st, ht[1:len(ht)-len("<<8)")])
+	r2, j2, j3, ok2 := byteRun(st, loPart.Term)
+	if !ok1 || !ok2 || r1 != r2 || j2 != j || j3 != j+1 || j+1-i > 7 {
+		return AV{}, false
+	}
+	// the shifted part must not have been truncated by the operand type
+	if tr := typeRange(t); tr.empty() || tr.max() < int64(1)<<uint(8*(j+1-i))-1 {
+		return AV{}, false
+	}
+	los := ""
+	if i != 0 {
+		los = fmt.Sprint(i)
+	}
+	name := fmt.Sprintf("be%d(slice(%s,%s,%d))", 8*(j+1-i), r1, los, j+1)
+	if _, ok := st.terms[name]; !ok {
+		st.terms[name] = iset{{0, int64(1)<<uint(8*(j+1-i)) - 1}}
+	}
+	return AV{Kind: KLin, Term: name}, true
+}
+
+// forkTableIndex: an element address of a package-level constant table (base
+// memory: written only by its initialiser) with an index that is not constant
+// but ranges over at most 16 values. The state is split per index value, so
+// that what is read from the table stays correlated with what the index was
+// computed from (table-driven dispatch). Index values outside the table are
+// left to one residual state with a symbolic element, where the bounds site is
+// judged as before.
+func (e *Engine) forkTableIndex(st *State, x *ssa.IndexAddr, base, idx AV) []*State {
+	if idx.Kind != KLin || !(base.Kind == KAddr || base.Kind == KSliceOf) || !strings.HasPrefix(base.Loc, "G:") {
+		return nil
+	}
+	n := int64(-1)
+	switch base.Kind {
+	case KSliceOf:
+		n = int64(base.N)
+	case KAddr:
+		if pt, ok := x.X.Type().Underlying().(*types.Pointer); ok {
+			if at, ok := pt.Elem().Underlying().(*types.Array); ok {
+				n = at.Len()
+			}
+		}
+	}
+	if n <= 0 || !hasChildren(st, ensureSel(base.Loc)) {
+		return nil
+	}
+	cur, ok := st.terms[idx.Term]
+	if !ok || cur.empty() {
+		return nil
+	}
+	// index values = term values + K
+	var vals []int64
+	for _, iv0 := range cur {
+		if iv0.hi-iv0.lo > 16 {
+			return nil
+		}
+		for v := iv0.lo; v <= iv0.hi; v++ {
+			vals = append(vals, v)
+			if len(vals) > 16 {
+				return nil
+			}
+		}
+	}
+	if len(vals) < 2 {
+		return nil
+	}
+	var out []*State
+	var rest iset
+	for _, v := range vals {
+		k := v + idx.K
+		if k < 0 || k >= n {
+			rest = append(rest, iv{v, v})
+			continue
+		}
+		s2 := st.clone()
+		s2.terms[idx.Term] = iset{{v, v}}
+		refineParent(s2, idx.Term, iset{{v, v}})
+		s2.env[x] = AV{Kind: KAddr, Loc: locJoin(ensureSel(base.Loc), fmt.Sprintf("[%d]", k))}
+		out = append(out, s2)
+	}
+	if len(out) == 0 {
+		return nil
+	}
+	if len(rest) > 0 {
+		s2 := st.clone()
+		s2.terms[idx.Term] = norm(rest)
+		s2.env[x] = AV{Kind: KAddr, Loc: locJoin(ensureSel(base.Loc), "[?"+idx.name()+"]")}
+		out = append(out, s2)
+	}
+	return out
 }
 
 // derivedExact: term is a derived term "(X>>k)", "(X/k)" or "(X&m)" whose
